@@ -125,6 +125,10 @@ func c18Run(c c18Case) (string, string) {
 // ---- lifecycle under the scheduler
 type c18Life struct {
 	Users [][]string `json:"users"` // per user thread: sequence of "start" / "stop"
+	// NoHold: the harness does not keep a reference of its own, so the last user's Shutdown can overlap another user's
+	// Start (complete stop and restart included). Restart semantics are outside the statement, so in this mode only the
+	// safety clauses are judged: no panic, no deadlock, no error from a matched Start/Shutdown, no checker left at the end.
+	NoHold bool `json:"no_hold,omitempty"`
 }
 
 type c18LifeObs struct {
@@ -134,6 +138,7 @@ type c18LifeObs struct {
 	finished    bool
 	errs        []string
 	liveAtEnd   []string
+	fullStops   int
 }
 
 func c18LifeBody(sc *c18Life, o *c18LifeObs) func() {
@@ -148,7 +153,7 @@ func c18LifeBody(sc *c18Life, o *c18LifeObs) func() {
 		vs.StartClock(func() bool { return done })
 		// the harness itself is the first user to start and the last to stop (restart after a complete stop is outside
 		// the statement: "keeps running until the last user has shut down and then stops")
-		hold := len(sc.Users) > 1
+		hold := len(sc.Users) > 1 && !sc.NoHold
 		if hold {
 			if err := ml.Start(context.Background(), nil); err != nil {
 				panic(err)
@@ -186,6 +191,9 @@ func c18LifeBody(sc *c18Life, o *c18LifeObs) func() {
 						}
 						mine--
 						o.started--
+						if o.started == 0 {
+							o.fullStops++
+						}
 						if o.started == 0 && !hold {
 							// the last user has shut down: the checker must be gone when Shutdown returns
 							for _, n := range vs.LiveThreads() {
@@ -204,7 +212,7 @@ func c18LifeBody(sc *c18Life, o *c18LifeObs) func() {
 			before := o.checks
 			vs.Sleep(3 * time.Second)
 			vs.Point()
-			if o.checks == before {
+			if o.checks == before && o.fullStops == 0 {
 				o.violations = append(o.violations, fmt.Sprintf("no memory check ran during 3 check intervals although %d users are still started", o.started))
 			}
 			for o.started > 0 {
@@ -335,10 +343,12 @@ func TestVerif(t *testing.T) {
 	ctx.Outcome("sequence:agree")
 	// lifecycle
 	lifes := []*c18Life{
-		{[][]string{{"start", "stop"}, {"start", "stop"}}},
-		{[][]string{{"start", "stop"}, {"start", "stop"}, {"start"}}},
-		{[][]string{{"start"}, {"start", "stop"}, {"start", "stop"}}},
-		{[][]string{{"stop", "start", "stop"}}},
+		{Users: [][]string{{"start", "stop"}, {"start", "stop"}}},
+		{Users: [][]string{{"start", "stop"}, {"start", "stop"}, {"start"}}},
+		{Users: [][]string{{"start"}, {"start", "stop"}, {"start", "stop"}}},
+		{Users: [][]string{{"stop", "start", "stop"}}},
+		{Users: [][]string{{"start", "stop"}, {"start", "stop"}}, NoHold: true},
+		{Users: [][]string{{"start", "stop"}, {"start", "stop"}, {"start", "stop"}}, NoHold: true},
 	}
 	bound := ctx.Param("bound", 2)
 	var nodes int64
